@@ -11,32 +11,36 @@ too slow for tables of this size, `Nat` arithmetic is GMP-accelerated.
 namespace Avo
 
 namespace Name
-/-- number of bytes of an encoded name -/
-def byteLen (n : Nat) : Nat := if n = 0 then 0 else Nat.log2 n / 8 + 1
+/-- bytes of an encoded name, most significant first (`fuel` ≥ number of bytes;
+the number itself is always enough fuel) -/
+def toBytesAux : Nat → Nat → List Nat → List Nat
+  | 0, _, acc => acc
+  | fuel+1, n, acc => if n = 0 then acc else toBytesAux fuel (n / 256) (n % 256 :: acc)
+def toBytes (n : Nat) : List Nat := toBytesAux n n []
+/-- number of bits of `8 * (number of bytes of n)` -/
+def bitLenAux : Nat → Nat → Nat → Nat
+  | 0, _, acc => acc
+  | fuel+1, n, acc => if n = 0 then acc else bitLenAux fuel (n / 256) (acc + 8)
+def bitLen (n : Nat) : Nat := bitLenAux n n 0
+def byteLen (n : Nat) : Nat := bitLen n / 8
 /-- concatenation of encoded names -/
-def cat (a b : Nat) : Nat := (a <<< (8 * byteLen b)) ||| b
+def cat (a b : Nat) : Nat := (a <<< bitLen b) ||| b
 def catAll (xs : List Nat) : Nat := xs.foldl cat 0
 /-- join with a one-byte separator -/
 def join (sep : Nat) : List Nat → Nat
   | [] => 0
   | x :: xs => xs.foldl (fun acc y => cat (cat acc sep) y) x
-
-def toBytesAux : Nat → Nat → List Nat → List Nat
-  | 0, _, acc => acc
-  | fuel+1, n, acc => if n = 0 then acc else toBytesAux fuel (n / 256) (n % 256 :: acc)
-def toBytes (n : Nat) : List Nat := toBytesAux (byteLen n) n []
 def ofBytes (bs : List Nat) : Nat := bs.foldl (fun a b => a * 256 + b) 0
 def toStr (n : Nat) : String := String.ofList ((toBytes n).map Char.ofNat)
 def ofStr (s : String) : Nat := ofBytes (s.toList.map Char.toNat)
 
 /-- split an encoded text at spaces (0x20) into encoded words -/
-def words (n : Nat) : List Nat :=
-  let rec go : List Nat → Nat → Bool → List Nat → List Nat
-    | [], cur, has, acc => (if has then cur :: acc else acc).reverse
-    | b :: bs, cur, has, acc =>
-      if b = 0x20 then go bs 0 false (if has then cur :: acc else acc)
-      else go bs (cur * 256 + b) true acc
-  go (toBytes n) 0 false []
+def wordsAux : List Nat → Nat → Bool → List Nat → List Nat
+  | [], cur, has, acc => (if has then cur :: acc else acc).reverse
+  | b :: bs, cur, has, acc =>
+    if b = 0x20 then wordsAux bs 0 false (if has then cur :: acc else acc)
+    else wordsAux bs (cur * 256 + b) true acc
+def words (n : Nat) : List Nat := wordsAux (toBytes n) 0 false []
 end Name
 
 namespace Instr
